@@ -30,6 +30,7 @@ func init() {
 			ruleDurationUnits(r, "T12", "/transport/reconnect", "/internal/retry", "/transport")
 			ruleCheckThenActAtomic(r, "T13", "/transport/reconnect", "/internal/retry")
 			ruleNoChanBlockUnderCloseLocks(r, le, "T14")
+			ruleCloseNotBehindIO(r, le, "T15")
 		},
 	})
 }
@@ -260,6 +261,37 @@ func ruleC18T3T4(r *Run) {
 				})
 				if w != nil {
 					ok = true
+				}
+			}
+			// one attempt per call: the function that writes and redials returns to its caller after a successful
+			// redial (tryWrite(data) (retry, ok)), and the caller gets back to the same call — the same request —
+			// without receiving a new one
+			if !ok && len(succ) > 0 {
+				returns := false
+				for _, ne := range succ {
+					if reachesWithoutFromBlock(ne, isReturn, nil) != nil {
+						returns = true
+					}
+				}
+				if returns {
+					for _, cs := range p.staticCallSites(wl) {
+						if _, isCall := cs.(*ssa.Call); !isCall {
+							continue
+						}
+						again := reachesWithout(cs, func(ins ssa.Instruction) bool { return ins == cs }, func(ins ssa.Instruction) bool {
+							if sel, isSel := ins.(*ssa.Select); isSel {
+								for _, st := range sel.States {
+									if st.Dir == types.RecvOnly && hasLeaf(p.Leaves(st.Chan, provOpts{}), "field:"+rcPkg+".Transport.writeReqCh") {
+										return true
+									}
+								}
+							}
+							return false
+						})
+						if again != nil {
+							ok = true
+						}
+					}
 				}
 			}
 		}
